@@ -1,12 +1,14 @@
 (** C03: proofs about Model/PCR0Tool.v -- filteredMeasurements keeps exactly the
-    PCR0 extends of the bank, in order; pcr0tool's printReproducePCR0Result
-    replays what the model's [replay_result] replays for results without swaps
-    (any disabled measurements, any log) and for results with swaps only in a
-    log that does not start with TPMInit(reported locality), provided the
-    reported register does not change the PCR0_DATA digest; closed witnesses of
-    the three ways in which it rejects a sound result. *)
+    PCR0 extends of the bank, in order; pcr0tool's printReproducePCR0Result (as
+    repaired by /repo 00d338a and 84ad407) replays exactly what the model's
+    [replay_result] replays, for every result whose disabled measurements and
+    swap indices are in range and for which PCR0_DATA is the first enabled
+    measurement when a register is reported ([tool_replay_agrees]); every reported
+    result meets these conditions ([reported_wf]), so the tool's replay is the
+    independent replay for every reported result ([tool_replay_reported]) and
+    confirms it when the hash is collision-free ([tool_confirms_reported]). *)
 From CSS Require Import Lib.Base Lib.Cases Model.Comb Proofs.Comb Model.PCR0Search Model.PCR0Tool Model.PCR0SearchCases Proofs.PCR0Search Proofs.PCR0SearchUnique.
-From Coq Require Import Arith ZifyBool ZifyNat Sorted.
+From Coq Require Import Arith ZifyBool ZifyNat Sorted Permutation.
 
 (** * filteredMeasurements *)
 
@@ -142,128 +144,238 @@ Proof.
 Qed.
 
 
+(** * printReproducePCR0Result *)
+
+Lemma Forall_apply_swaps {A} (P : A -> Prop) s (l : list A) : Forall P l -> Forall P (apply_swaps s l).
+Proof. intro H. eapply Permutation.Permutation_Forall; [apply apply_swaps_Permutation|exact H]. Qed.
+
+Lemma filter_map_comm {A B} (f : A -> B) (P : B -> bool) : forall l : list A,
+  filter P (map f l) = map f (filter (fun x => P (f x)) l).
+Proof. induction l as [|x t IH]; [reflexivity|]. cbn. destruct (P (f x)); cbn; now rewrite IH. Qed.
+
+Lemma filter_ext_Forall {A} (P Q : A -> bool) : forall l : list A,
+  Forall (fun x => P x = Q x) l -> filter P l = filter Q l.
+Proof. induction 1 as [|x t E _ IH]; [reflexivity|]. cbn. now rewrite E, IH. Qed.
+
+(** positions in the command log of the measurements a result lists as disabled
+    (the result itself holds pointers into the log) *)
+Definition cmd_positions {D} (f : list (nat * meas D)) (dis_f : list nat) : list nat :=
+  map (fun i => nth i (map fst f) O) dis_f.
+
 Section ToolProofs.
   Variable D : Type.
-  Variable deqb : D -> D -> bool.
-  Variable pcr_init : Z -> D.
-  Variable extend : D -> D -> D.
-  Variable pcr0data : Z -> Z -> D.
 
   Notation flog := (PCR0Tool.filter_log D).
-  Notation tool_kept := (tool_kept D).
-  Notation tool_run := (tool_run D pcr_init extend).
-  Notation tool_verdict := (tool_verdict D deqb pcr_init extend).
-  Notation replay := (replay D pcr_init extend).
+  Notation tool_entries := (tool_entries D).
 
-  (** the digests of the PCR0 extends of the bank that are not disabled
-      ([dis]: positions in the command log) *)
-  Definition kept_digs (alg : Z) (dis : list nat) (i : nat) (l : list (lcmd D)) : list D :=
-    map (fun pm => m_dig (snd pm)) (filter (fun pm => negb (mem_nat (fst pm) dis)) (flog alg i l)).
+  (** a filtered measurement as an entry of the tool's list *)
+  Definition as_entry (alg : Z) (pm : nat * meas D) : nat * lcmd D := (fst pm, LExt 0 alg (snd pm)).
 
-  Definition no_head_init (i : nat) (l : list (lcmd D)) : Prop :=
-    i = O -> match l with LInit _ :: _ => False | _ => True end.
-
-  (** behind the first entry no TPMInit is kept: the kept entries are the enabled
-      extends, and replaying them extends the PCR in order *)
-  Lemma tool_run_tail alg loc dis : forall l i p, no_head_init i l ->
-    tool_run (tool_kept alg loc dis i l) (Some p) = Some (fold_left extend (kept_digs alg dis i l) p) /\
-    existsb (is_linit D) (tool_kept alg loc dis i l) = false.
+  (** behind the first entry the tool keeps exactly the filtered measurements *)
+  Lemma tool_entries_tail alg loc : forall l i, (1 <= i)%nat ->
+    tool_entries alg loc i l = map (as_entry alg) (flog alg i l).
   Proof.
-    induction l as [|c t IH]; intros i p Hn; [split; reflexivity|].
-    assert (Ht : no_head_init (S i) t) by (intro; discriminate).
-    destruct c as [l0|pcr a m|]; cbn [PCR0Tool.tool_kept]; unfold tool_keeps.
-    - assert (Ei : Nat.eqb i 0 = false).
-      { destruct i; [exfalso; now apply Hn|reflexivity]. }
-      rewrite Ei. cbn [andb]. rewrite andb_false_r.
-      unfold kept_digs. cbn [PCR0Tool.filter_log]. exact (IH (S i) p Ht).
-    - unfold kept_digs. cbn [PCR0Tool.filter_log].
-      destruct ((pcr =? 0) && (a =? alg)) eqn:E.
-      + cbn [filter fst]. destruct (mem_nat i dis); cbn [negb andb].
-        * exact (IH (S i) p Ht).
-        * cbn [PCR0Tool.tool_run map snd fold_left existsb is_linit orb].
-          exact (IH (S i) (extend p (m_dig m)) Ht).
-      + rewrite andb_false_r. exact (IH (S i) p Ht).
-    - rewrite andb_false_r. unfold kept_digs. cbn [PCR0Tool.filter_log]. exact (IH (S i) p Ht).
+    induction l as [|c t IH]; intros i Hi; [reflexivity|].
+    destruct c as [l0|pcr a m|]; cbn [PCR0Tool.tool_entries PCR0Tool.filter_log]; unfold tool_keeps.
+    - replace (Nat.eqb i 0) with false by (destruct i; [lia|reflexivity]). cbn [andb].
+      apply IH. lia.
+    - destruct ((pcr =? 0) && (a =? alg)) eqn:E; [|apply IH; lia].
+      apply andb_prop in E as (E1 & E2). apply Z.eqb_eq in E1, E2. subst pcr a.
+      cbn [map]. unfold as_entry at 1. cbn [fst snd]. f_equal. apply IH. lia.
+    - apply IH. lia.
   Qed.
 
-  (** whatever the log looks like: the replay of the kept entries starts from
-      TPMInit(reported locality) -- the log's own first entry or the tool's -- and
-      extends with the enabled digests *)
-  Lemma tool_run_kept alg loc dis cmds :
-    tool_run (tool_kept alg loc dis 0 cmds)
-             (if existsb (is_linit D) (tool_kept alg loc dis 0 cmds) then None else Some (pcr_init loc))
-    = Some (replay loc (kept_digs alg dis 0 cmds)).
+  (** the log's own TPMInit is kept: it is the first command and has the reported locality *)
+  Definition head_init (loc : Z) (cmds : list (lcmd D)) : bool :=
+    match cmds with LInit l0 :: _ => l0 =? loc | _ => false end.
+
+  Lemma tool_entries_all alg loc cmds :
+    tool_entries alg loc 0 cmds
+    = (if head_init loc cmds then [(O, LInit loc)] else []) ++ map (as_entry alg) (flog alg 0 cmds).
   Proof.
-    unfold PCR0Search.replay.
-    destruct cmds as [|c t].
-    - reflexivity.
-    - destruct c as [l0|pcr a m|].
-      + assert (Ht : no_head_init 1 t) by (intro; discriminate).
-        destruct (tool_run_tail alg loc dis t 1 (pcr_init loc) Ht) as (R & N).
-        cbn [PCR0Tool.tool_kept]. unfold tool_keeps. cbn [Nat.eqb andb].
-        unfold kept_digs in *. cbn [PCR0Tool.filter_log].
-        destruct (negb (mem_nat 0 dis) && (l0 =? loc)) eqn:E.
-        * apply andb_prop in E as (_ & E). apply Z.eqb_eq in E. subst l0.
-          cbn [existsb is_linit orb PCR0Tool.tool_run]. exact R.
-        * rewrite N. exact R.
-      + assert (Hn : no_head_init 0 (LExt pcr a m :: t)) by (intro; exact I).
-        destruct (tool_run_tail alg loc dis _ 0 (pcr_init loc) Hn) as (R & N).
-        rewrite N. exact R.
-      + assert (Hn : no_head_init 0 (@LLog D :: t)) by (intro; exact I).
-        destruct (tool_run_tail alg loc dis _ 0 (pcr_init loc) Hn) as (R & N).
-        rewrite N. exact R.
+    destruct cmds as [|c t]; [reflexivity|].
+    destruct c as [l0|pcr a m|]; cbn [PCR0Tool.tool_entries PCR0Tool.filter_log head_init]; unfold tool_keeps.
+    - cbn [Nat.eqb andb]. destruct (l0 =? loc) eqn:E.
+      + apply Z.eqb_eq in E. subst l0. cbn [app]. f_equal. apply tool_entries_tail. lia.
+      + cbn [app]. apply tool_entries_tail. lia.
+    - cbn [app]. destruct ((pcr =? 0) && (a =? alg)) eqn:E; [|apply tool_entries_tail; lia].
+      apply andb_prop in E as (E1 & E2). apply Z.eqb_eq in E1, E2. subst pcr a.
+      cbn [map]. unfold as_entry at 1. cbn [fst snd]. f_equal. apply tool_entries_tail. lia.
+    - cbn [app]. apply tool_entries_tail. lia.
   Qed.
 
-  (** ** No swaps: the tool replays the enabled digests from the reported locality *)
-  Theorem tool_plain alg cmds target loc dis :
-    tool_verdict alg cmds target loc dis []
-    = if deqb (replay loc (kept_digs alg dis 0 cmds)) target then TVOk else TVMismatch.
-  Proof.
-    unfold PCR0Tool.tool_verdict. cbn [apply_swaps_strict]. now rewrite tool_run_kept.
-  Qed.
+  Lemma existsb_init_entries alg (f : list (nat * meas D)) :
+    existsb (fun e => is_linit D (snd e)) (map (as_entry alg) f) = false.
+  Proof. induction f as [|pm t IH]; [reflexivity|]. cbn [map existsb as_entry snd is_linit orb]. exact IH. Qed.
 
-  (** the enabled digests are those of the model's [apply_result] for a result
-      without corrected register and without swaps; [dis_f]: positions in the
-      filtered list, as in [r_disabled] *)
-  Lemma kept_digs_apply_result alg cmds loc dis_f :
-    let f := flog alg 0 cmds in
-    Forall (fun i => (i < length f)%nat) dis_f ->
-    kept_digs alg (map (fun i => nth i (map fst f) O) dis_f) 0 cmds
-    = apply_result D pcr0data (map snd f) (mkResult loc None dis_f []).
-  Proof.
-    intros f HF. unfold apply_result, nlog. cbn [r_reg r_swaps r_disabled apply_swaps fold_left].
-    replace (length (map snd f)) with (length (map (@m_dig D) (map snd f))) by (now rewrite map_length).
-    rewrite (combine_filter_ifilter (fun i => negb (mem_nat i dis_f))).
-    unfold kept_digs. fold f.
-    rewrite (keyed_filter_ifilter (fun pm : nat * meas D => m_dig (snd pm))
-               (fun p => negb (mem_nat p (map (fun i => nth i (map fst f) O) dis_f)))
-               (fun i => negb (mem_nat i dis_f)) f 0).
-    - now rewrite map_map.
-    - intros k pm Hk. cbn [Nat.add]. f_equal.
-      assert (Hlen : (k < length f)%nat) by (apply nth_error_Some; congruence).
-      assert (Ep : fst pm = nth k (map fst f) O).
-      { symmetry. apply nth_error_nth. now apply map_nth_error. }
-      rewrite Ep. apply mem_nat_positions.
-      + apply sorted_lt_NoDup. apply (filter_log_exact D alg cmds).
-      + now rewrite map_length.
-      + now rewrite map_length.
-  Qed.
+  Lemma flog_positions_ge alg : forall l i p m, In (p, m) (flog alg i l) -> (i <= p)%nat.
+  Proof. intros l i p m H. now apply (filter_log_in D alg l i p m) in H as (H & _). Qed.
 
-  Theorem tool_plain_model alg cmds target loc dis_f :
-    let f := flog alg 0 cmds in
-    Forall (fun i => (i < length f)%nat) dis_f ->
-    tool_verdict alg cmds target loc (map (fun i => nth i (map fst f) O) dis_f) []
-    = if deqb (replay_result D pcr_init extend pcr0data (map snd f) (mkResult loc None dis_f [])) target
-      then TVOk else TVMismatch.
+  (** replaying extends only *)
+  Lemma tool_run_entries (pcr_init : Z -> D) (extend : D -> D -> D) alg : forall (f : list (nat * meas D)) p,
+    tool_run D pcr_init extend (map snd (map (as_entry alg) f)) (Some p)
+    = Some (fold_left extend (map (fun pm => m_dig (snd pm)) f) p).
   Proof.
-    intros f HF. rewrite tool_plain. unfold replay_result. cbn [r_loc].
-    pose proof (kept_digs_apply_result alg cmds loc dis_f HF) as E. cbv zeta in E. fold f in E.
-    now rewrite E.
+    induction f as [|pm t IH]; intro p; [reflexivity|].
+    cbn [map as_entry snd PCR0Tool.tool_run fold_left]. apply IH.
   Qed.
 End ToolProofs.
 
+Lemma combine_seq_In {A} : forall (l : list A) i k x,
+  In (k, x) (combine (seq i (length l)) l) -> (i <= k)%nat /\ nth_error l (k - i) = Some x.
+Proof.
+  induction l as [|y t IH]; intros i k x H; [destruct H|].
+  cbn [length seq combine In] in H. destruct H as [H|H].
+  - inversion H; subst. split; [lia|]. now rewrite Nat.sub_diag.
+  - apply IH in H as (H1 & H2). split; [lia|].
+    replace (k - i)%nat with (S (k - S i)) by lia. exact H2.
+Qed.
 
-Section ToolSwaps.
+Section Pipeline.
+  Variable D : Type.
+  Variable pcr0data : Z -> Z -> D.
+
+  (** swaps, then dropping the disabled entries, on the position-tagged list of
+      the tool and on the index-tagged digest list of [apply_result] *)
+  Lemma pipeline (f1 : list (nat * meas D)) loc dis_f sw :
+    NoDup (map fst f1) ->
+    Forall (fun i => (i < length f1)%nat) dis_f ->
+    map (fun pm => m_dig (snd pm))
+        (filter (fun pm => negb (mem_nat (fst pm) (cmd_positions f1 dis_f))) (apply_swaps sw f1))
+    = apply_result D pcr0data (map snd f1) (mkResult loc None dis_f sw).
+  Proof.
+    intros ND HF. unfold apply_result, nlog. cbn [r_reg r_swaps r_disabled]. rewrite map_length.
+    set (n := length f1).
+    set (T := combine (seq 0 n) f1).
+    assert (E1 : f1 = map snd T) by (unfold T, n; now rewrite map_snd_combine by now rewrite seq_length).
+    set (h := fun t : nat * (nat * meas D) => (fst t, m_dig (snd (snd t)))).
+    assert (E2 : combine (seq 0 n) (map (@m_dig D) (map snd f1)) = map h T).
+    { unfold T, h, n. clear. generalize 0%nat. induction f1 as [|x t IH]; intro i; [reflexivity|].
+      cbn [length seq map combine fst snd]. f_equal. apply IH. }
+    set (X := apply_swaps sw T).
+    assert (E3 : apply_swaps sw f1 = map snd X) by (unfold X; now rewrite map_apply_swaps, <- E1).
+    assert (E4 : apply_swaps sw (map h T) = map h X) by (unfold X; now rewrite map_apply_swaps).
+    rewrite E2, E3, E4. rewrite !filter_map_comm, !map_map. cbn [fst snd h].
+    assert (HX : Forall (fun t => (fst t < n)%nat /\ nth (fst t) (map fst f1) O = fst (snd t)) X).
+    { apply Forall_apply_swaps. apply Forall_forall. intros [k x] Hin.
+      apply combine_seq_In in Hin as (_ & Hn). rewrite Nat.sub_0_r in Hn. cbn [fst snd].
+      split; [apply nth_error_Some; congruence|].
+      apply nth_error_nth. now apply map_nth_error. }
+    rewrite (filter_ext_Forall (fun x => negb (mem_nat (fst (snd x)) (cmd_positions f1 dis_f)))
+                               (fun x => negb (mem_nat (fst x) dis_f)) X); [reflexivity|].
+    eapply Forall_impl; [|exact HX]. intros t (Hk & Hp). cbn beta. f_equal.
+    rewrite <- Hp. unfold cmd_positions. apply mem_nat_positions; try assumption; now rewrite map_length.
+  Qed.
+End Pipeline.
+
+Lemma first_true_ge fl : forall i p, first_true fl i = Some p -> (i <= p)%nat.
+Proof.
+  induction fl as [|b t IH]; intros i p H; cbn in H; [discriminate|].
+  destruct b; [inversion H; lia|]. apply IH in H. lia.
+Qed.
+
+(** PCR0_DATA is the first enabled measurement whenever a register is reported:
+    the hypothesis under which "re-hash the first enabled measurement" (the tool,
+    and the brute-forcer itself) and [apply_result] mean the same *)
+Definition data_first D (log : list (meas D)) (r : result) : Prop :=
+  forall v p m, r_reg r = Some v ->
+    first_true (map (fun i => negb (mem_nat i (r_disabled r))) (seq 0 (length log))) 0 = Some p ->
+    nth_error log p = Some m -> m_data m <> None.
+
+Section Correction.
+  Variable D : Type.
+  Variable pcr0data : Z -> Z -> D.
+  Variable dis_f : list nat.
+  Variable v : Z.
+
+  Notation flag := (fun i => negb (mem_nat i dis_f)).
+
+  (** the filtered list with the first enabled measurement re-hashed *)
+  Fixpoint corr (k : nat) (fs : list (nat * meas D)) : list (nat * meas D) :=
+    match fs with
+    | [] => []
+    | pm :: t =>
+        if mem_nat k dis_f then pm :: corr (S k) t
+        else match m_data (snd pm) with
+             | Some (tail, _) => (fst pm, mkMeas (pcr0data tail v) (m_data (snd pm))) :: t
+             | None => pm :: t
+             end
+    end.
+
+  Fixpoint first_has_data (k : nat) (fs : list (nat * meas D)) : Prop :=
+    match fs with
+    | [] => True
+    | pm :: t => if mem_nat k dis_f then first_has_data (S k) t else m_data (snd pm) <> None
+    end.
+
+  Lemma map_fst_corr : forall fs k, map fst (corr k fs) = map fst fs.
+  Proof.
+    induction fs as [|pm t IH]; intro k; [reflexivity|]. cbn [corr].
+    destruct (mem_nat k dis_f); [cbn [map]; now rewrite IH|].
+    destruct (m_data (snd pm)) as [[tail r0]|]; reflexivity.
+  Qed.
+
+  Lemma length_corr fs k : length (corr k fs) = length fs.
+  Proof. rewrite <- (map_length fst), map_fst_corr. apply map_length. Qed.
+
+  (** [apply_result]'s corrected digest list is the digest list of [corr] *)
+  Lemma digs_corr : forall fs k,
+    match first_true (map flag (seq k (length fs))) k with
+    | Some p =>
+        match nth_error (map snd fs) (p - k) with
+        | Some m => match m_data m with
+                    | Some (tail, _) => set_nth (p - k) (pcr0data tail v) (map (@m_dig D) (map snd fs))
+                    | None => map (@m_dig D) (map snd fs)
+                    end
+        | None => map (@m_dig D) (map snd fs)
+        end
+    | None => map (@m_dig D) (map snd fs)
+    end = map (@m_dig D) (map snd (corr k fs)).
+  Proof.
+    induction fs as [|pm t IH]; intro k; [reflexivity|].
+    cbn [length seq map first_true corr]. destruct (mem_nat k dis_f) eqn:Em; cbn [negb].
+    - specialize (IH (S k)). cbn [map snd].
+      destruct (first_true (map flag (seq (S k) (length t))) (S k)) as [p|] eqn:Ef; [|now rewrite <- IH].
+      pose proof (first_true_ge _ _ _ Ef) as Hp.
+      replace (p - k)%nat with (S (p - S k)) by lia. cbn [nth_error].
+      destruct (nth_error (map snd t) (p - S k)) as [m|]; [|now rewrite <- IH].
+      destruct (m_data m) as [[tail r0]|]; [|now rewrite <- IH].
+      cbn [set_nth]. now rewrite <- IH.
+    - rewrite Nat.sub_diag. cbn [nth_error map snd].
+      destruct (m_data (snd pm)) as [[tail r0]|]; reflexivity.
+  Qed.
+
+  Lemma first_has_data_of : forall fs k,
+    (forall p m, first_true (map flag (seq k (length fs))) k = Some p ->
+                 nth_error (map snd fs) (p - k) = Some m -> m_data m <> None) ->
+    first_has_data k fs.
+  Proof.
+    induction fs as [|pm t IH]; intros k H; [exact I|].
+    cbn [first_has_data]. cbn [length seq map first_true] in H.
+    destruct (mem_nat k dis_f) eqn:Em; cbn [negb] in H.
+    - apply IH. intros p m Ef Hn. pose proof (first_true_ge _ _ _ Ef) as Hp.
+      apply (H p m Ef). replace (p - k)%nat with (S (p - S k)) by lia. exact Hn.
+    - apply (H k (snd pm) eq_refl). now rewrite Nat.sub_diag.
+  Qed.
+
+  (** the tool's correction of its entry list is [corr] *)
+  Lemma tool_correct_corr alg dis : forall fs k,
+    (forall j pm, nth_error fs j = Some pm -> mem_nat (fst pm) dis = mem_nat (k + j) dis_f) ->
+    first_has_data k fs ->
+    tool_correct D pcr0data alg dis v (map (as_entry D alg) fs) = Some (map (as_entry D alg) (corr k fs)).
+  Proof.
+    induction fs as [|pm t IH]; intros k Hm Hd; [reflexivity|].
+    cbn [map PCR0Tool.tool_correct corr first_has_data] in *.
+    change (as_entry D alg pm) with (fst pm, LExt 0 alg (snd pm)). cbn [PCR0Tool.tool_correct fst snd is_linit].
+    rewrite (Hm O pm eq_refl), Nat.add_0_r, orb_false_r.
+    destruct (mem_nat k dis_f) eqn:Em.
+    - rewrite (IH (S k)); [reflexivity| |exact Hd].
+      intros j pm' Hj. rewrite (Hm (S j) pm' Hj). f_equal. lia.
+    - cbn [m_data]. destruct (m_data (snd pm)) as [[tail r0]|]; [reflexivity|now elim Hd].
+  Qed.
+End Correction.
+
+Section Agreement.
   Variable D : Type.
   Variable deqb : D -> D -> bool.
   Variable pcr_init : Z -> D.
@@ -271,85 +383,185 @@ Section ToolSwaps.
   Variable pcr0data : Z -> Z -> D.
 
   Notation flog := (PCR0Tool.filter_log D).
-  Notation tool_kept := (tool_kept D).
-  Notation tool_run := (tool_run D pcr_init extend).
-  Notation tool_verdict := (tool_verdict D deqb pcr_init extend).
-  Notation replay := (replay D pcr_init extend).
 
-  Definition as_ext (alg : Z) (pm : nat * meas D) : lcmd D := LExt 0 alg (snd pm).
+  (** the filtered list as the result amends it: PCR0_DATA re-hashed *)
+  Definition amended (f : list (nat * meas D)) (r : result) : list (nat * meas D) :=
+    match r_reg r with Some v => corr D pcr0data (r_disabled r) v 0 f | None => f end.
 
-  (** nothing disabled: behind the first entry the kept entries are the filtered
-      measurements, in order *)
-  Lemma tool_kept_all_tail alg loc : forall l i, no_head_init D i l ->
-    tool_kept alg loc [] i l = map (as_ext alg) (flog alg i l).
+  Lemma map_fst_amended f r : map fst (amended f r) = map fst f.
+  Proof. unfold amended. destruct (r_reg r); [apply map_fst_corr|reflexivity]. Qed.
+
+  Lemma apply_result_amended (f : list (nat * meas D)) r :
+    apply_result D pcr0data (map snd f) r
+    = apply_result D pcr0data (map snd (amended f r)) (mkResult (r_loc r) None (r_disabled r) (r_swaps r)).
   Proof.
-    induction l as [|c t IH]; intros i Hn; [reflexivity|].
-    assert (Ht : no_head_init D (S i) t) by (intro; discriminate).
-    destruct c as [l0|pcr a m|]; cbn [PCR0Tool.tool_kept PCR0Tool.filter_log]; unfold tool_keeps;
-      cbn [mem_nat negb andb].
-    - assert (Ei : Nat.eqb i 0 = false).
-      { destruct i; [exfalso; now apply Hn|reflexivity]. }
-      rewrite Ei. cbn [andb]. exact (IH (S i) Ht).
-    - destruct ((pcr =? 0) && (a =? alg)) eqn:E; [|exact (IH (S i) Ht)].
-      apply andb_prop in E as (E1 & E2). apply Z.eqb_eq in E1, E2. subst pcr a.
-      cbn [map]. unfold as_ext at 1. cbn [snd]. f_equal. exact (IH (S i) Ht).
-    - exact (IH (S i) Ht).
+    unfold amended. destruct r as [loc [v|] dis sw]; cbn [r_reg r_loc r_disabled r_swaps]; [|reflexivity].
+    unfold apply_result, nlog. cbn [r_reg r_disabled r_swaps]. rewrite !map_length, length_corr.
+    pose proof (digs_corr D pcr0data dis v f 0) as E.
+    destruct (first_true (map (fun i => negb (mem_nat i dis)) (seq 0 (length f))) 0) as [p|];
+      [rewrite Nat.sub_0_r in E|]; now rewrite E.
   Qed.
 
-  (** the log's TPMInit is not among the kept entries: the log does not start
-      with TPMInit(reported locality) *)
-  Definition no_init_kept (loc : Z) (cmds : list (lcmd D)) : Prop :=
-    match cmds with LInit l0 :: _ => l0 <> loc | _ => True end.
-
-  Lemma tool_kept_all alg loc cmds : no_init_kept loc cmds ->
-    tool_kept alg loc [] 0 cmds = map (as_ext alg) (flog alg 0 cmds).
+  Lemma head_init_positions alg loc cmds : head_init D loc cmds = true ->
+    Forall (fun p => (1 <= p)%nat) (map fst (flog alg 0 cmds)).
   Proof.
-    intro Hn. destruct cmds as [|c t]; [reflexivity|].
-    destruct c as [l0|pcr a m|].
-    - cbn [no_init_kept] in Hn. cbn [PCR0Tool.tool_kept PCR0Tool.filter_log]. unfold tool_keeps.
-      cbn [mem_nat negb Nat.eqb andb]. replace (l0 =? loc) with false by lia.
-      apply tool_kept_all_tail. intro; discriminate.
-    - apply tool_kept_all_tail. intro; exact I.
-    - apply tool_kept_all_tail. intro; exact I.
+    destruct cmds as [|[l0|pcr a m|] t]; cbn [head_init]; try discriminate. intros _.
+    cbn [PCR0Tool.filter_log]. apply (filter_log_sorted D alg t 1).
   Qed.
 
-  Lemma tool_run_exts alg : forall (l : list (nat * meas D)) p,
-    tool_run (map (as_ext alg) l) (Some p) = Some (fold_left extend (map (fun pm => m_dig (snd pm)) l) p).
-  Proof.
-    induction l as [|pm t IH]; intro p; [reflexivity|].
-    cbn [map as_ext PCR0Tool.tool_run fold_left]. apply IH.
-  Qed.
-
-  Lemma existsb_as_ext alg (l : list (nat * meas D)) : existsb (is_linit D) (map (as_ext alg) l) = false.
-  Proof. induction l as [|pm t IH]; [reflexivity|]. cbn [map existsb as_ext is_linit orb]. exact IH. Qed.
-
-  (** ** Swaps only: when nothing is disabled and the log does not start with
-      TPMInit(reported locality), the tool applies the swaps to the PCR0
-      measurements themselves, as the brute-forcer meant them *)
-  Theorem tool_swaps_model alg cmds target loc sw :
+  Theorem tool_replay_agrees alg (cmds : list (lcmd D)) target r :
     let f := flog alg 0 cmds in
-    no_init_kept loc cmds ->
-    Forall (fun i => (i < length f)%nat) (swap_idx sw) ->
-    tool_verdict alg cmds target loc [] sw
-    = if deqb (replay_result D pcr_init extend pcr0data (map snd f) (mkResult loc None [] sw)) target
-      then TVOk else TVMismatch.
+    Forall (fun i => (i < length f)%nat) (r_disabled r) ->
+    Forall (fun i => (i < length f)%nat) (swap_idx (r_swaps r)) ->
+    data_first D (map snd f) r ->
+    tool_verdict D deqb pcr_init extend pcr0data alg cmds target
+                 (r_loc r) (r_reg r) (cmd_positions f (r_disabled r)) (r_swaps r)
+    = if deqb (replay_result D pcr_init extend pcr0data (map snd f) r) target then TVOk else TVMismatch.
   Proof.
-    intros f Hn Hsw. unfold PCR0Tool.tool_verdict.
-    rewrite (tool_kept_all alg loc cmds Hn). fold f.
-    rewrite apply_swaps_strict_ok by (now rewrite map_length).
-    rewrite existsb_as_ext, <- map_apply_swaps, tool_run_exts.
-    unfold replay_result, PCR0Search.replay, apply_result, nlog.
-    cbn [r_loc r_reg r_swaps r_disabled].
-    rewrite filter_all by reflexivity.
-    rewrite !map_apply_swaps, map_snd_combine by (now rewrite seq_length, !map_length).
-    now rewrite map_map.
+    intros f Hdis Hsw Hdf.
+    set (dis := cmd_positions f (r_disabled r)).
+    set (f1 := amended f r).
+    assert (ND : NoDup (map fst f)) by (apply sorted_lt_NoDup, (filter_log_exact D alg cmds)).
+    assert (Hlen1 : length f1 = length f).
+    { rewrite <- (map_length fst f1), <- (map_length fst f). unfold f1. now rewrite map_fst_amended. }
+    (* the model side *)
+    assert (Hres : replay_result D pcr_init extend pcr0data (map snd f) r
+                   = fold_left extend
+                       (map (fun pm => m_dig (snd pm))
+                            (filter (fun pm => negb (mem_nat (fst pm) dis)) (apply_swaps (r_swaps r) f1)))
+                       (pcr_init (r_loc r))).
+    { unfold replay_result, PCR0Search.replay. rewrite (apply_result_amended f r). fold f1.
+      rewrite <- (pipeline D pcr0data f1 (r_loc r) (r_disabled r) (r_swaps r)).
+      - unfold dis, cmd_positions, f1. now rewrite map_fst_amended.
+      - unfold f1. now rewrite map_fst_amended.
+      - now rewrite Hlen1. }
+    rewrite Hres. clear Hres.
+    (* the correction of the tool's entries *)
+    assert (Hcorr : match r_reg r with
+                    | Some v => tool_correct D pcr0data alg dis v (map (as_entry D alg) f)
+                    | None => Some (map (as_entry D alg) f)
+                    end = Some (map (as_entry D alg) f1)).
+    { unfold f1, amended. destruct (r_reg r) as [v|] eqn:Er; [|reflexivity].
+      apply tool_correct_corr.
+      - intros j pm Hj. cbn [Nat.add]. unfold dis, cmd_positions.
+        assert (Hjl : (j < length f)%nat) by (apply nth_error_Some; congruence).
+        replace (fst pm) with (nth j (map fst f) O)
+          by (apply nth_error_nth; now apply map_nth_error).
+        apply mem_nat_positions; try assumption; now rewrite map_length.
+      - apply (first_has_data_of D pcr0data). intros p m Ef Hn. rewrite Nat.sub_0_r in Hn.
+        apply (Hdf v p m Er); [now rewrite map_length|exact Hn]. }
+    assert (Hswaps : apply_swaps_strict (r_swaps r) (map (as_entry D alg) f1)
+                     = Some (map (as_entry D alg) (apply_swaps (r_swaps r) f1))).
+    { rewrite apply_swaps_strict_ok by (now rewrite map_length, Hlen1). now rewrite map_apply_swaps. }
+    assert (Hfilter : forall X : list (nat * meas D),
+              map snd (filter (fun e => negb (mem_nat (fst e) dis)) (map (as_entry D alg) X))
+              = map snd (map (as_entry D alg) (filter (fun pm => negb (mem_nat (fst pm) dis)) X))).
+    { intro X. now rewrite filter_map_comm. }
+    unfold PCR0Tool.tool_verdict. rewrite (tool_entries_all D alg (r_loc r) cmds). fold f.
+    destruct (head_init D (r_loc r) cmds) eqn:Eh; cbn [app].
+    - cbn [existsb snd is_linit orb].
+      assert (H0 : mem_nat 0 dis = false).
+      { destruct (mem_nat 0 dis) eqn:E; [|reflexivity]. apply mem_nat_In in E.
+        unfold dis, cmd_positions in E. apply in_map_iff in E as (i & Ei & Hi).
+        rewrite Forall_forall in Hdis. specialize (Hdis _ Hi).
+        pose proof (head_init_positions alg _ _ Eh) as Hp. fold f in Hp. rewrite Forall_forall in Hp.
+        assert (In (nth i (map fst f) O) (map fst f)) by (apply nth_In; now rewrite map_length).
+        specialize (Hp _ H). lia. }
+      assert (Hc2 : match r_reg r with
+                    | Some v => tool_correct D pcr0data alg dis v ((O, LInit (r_loc r)) :: map (as_entry D alg) f)
+                    | None => Some ((O, LInit (r_loc r)) :: map (as_entry D alg) f)
+                    end = Some ((O, LInit (r_loc r)) :: map (as_entry D alg) f1)).
+      { destruct (r_reg r) as [v|]; [|now inversion Hcorr].
+        cbn [PCR0Tool.tool_correct is_linit]. rewrite orb_true_r. now rewrite Hcorr. }
+      rewrite Hc2, Hswaps. cbn [filter fst]. rewrite H0. cbn [negb map snd PCR0Tool.tool_run].
+      now rewrite Hfilter, tool_run_entries.
+    - rewrite existsb_init_entries, Hcorr, Hswaps, Hfilter, tool_run_entries. reflexivity.
   Qed.
-End ToolSwaps.
+End Agreement.
 
+(** * Every reported result meets the side conditions of [tool_replay_agrees] *)
 
-(** * Closed witnesses: sound results that the tool's own replay rejects *)
+Lemma disabled_of_range D (log : list (meas D)) comb :
+  Forall (fun i => (i < length log)%nat) (disabled_of D log comb).
+Proof.
+  unfold disabled_of, nlog. apply Forall_forall. intros i Hi.
+  apply in_map_iff in Hi as (z & <- & Hz). apply filter_In in Hz as (_ & Hz). lia.
+Qed.
 
-Definition t_tool := tool_verdict term term_eqb Init Ext.
+Lemma reported_wf D (deqb : D -> D -> bool) :
+  (forall a b, deqb a b = true <-> a = b) ->
+  forall (pcr_init : Z -> D) (extend : D -> D -> D) (pcr0data : Z -> Z -> D) st
+         (log : list (meas D)) (target : D) cf r,
+  In (FSome r) (outcomes D deqb pcr_init extend pcr0data st log target cf) ->
+  Forall (fun i => (i < length log)%nat) (r_disabled r) /\
+  Forall (fun i => (i < length log)%nat) (swap_idx (r_swaps r)) /\
+  data_first D log r.
+Proof.
+  intros Hd pcr_init extend pcr0data st log target cf r H.
+  apply outcomes_found in H as (loc & _ & H).
+  apply (job_found D deqb Hd) in H as (k & ws & _ & _ & cs & c & reg & sw & _ & _ & Ht & ->).
+  apply (try_found D deqb Hd) in Ht as (s & s' & -> & Hsp & Hwf & _).
+  cbn [r_disabled r_swaps r_reg].
+  set (fl := enabled_flags D log c) in *.
+  assert (Hfl : length fl = length log) by apply length_enabled_flags.
+  assert (Hpos : length (positions fl) = length (select fl log)) by (symmetry; now apply length_select).
+  split; [apply disabled_of_range|]. split.
+  - apply (swaps_wf_range D extend target) in Hwf. rewrite shift_swaps_lift by (now rewrite Hpos).
+    pose proof (lift_swaps_idx fl s ltac:(now rewrite Hpos)) as Hl.
+    eapply Forall_impl; [|exact Hl]. intros i Hi. cbn beta in Hi.
+    rewrite <- Hfl. apply nth_error_Some. congruence.
+  - intros v p m Er Ef Hn. cbn [r_reg r_disabled] in Er, Ef. subst reg.
+    change (length log) with (nlog D log) in Ef. rewrite (disabled_flags D deqb Hd pcr_init extend pcr0data log target c) in Ef. fold fl in Ef.
+    pose proof (first_true_nth fl log 0 p Hfl Ef) as Hh. rewrite Nat.sub_0_r, Hn in Hh.
+    destruct Hsp as (_ & _ & Hreg & _). fold fl in Hreg.
+    destruct (select fl log) as [|m0 en]; [discriminate|]. cbn in Hh. inversion Hh; subst m0.
+    destruct (m_data m) as [[tail r0]|]; [discriminate|]. discriminate.
+Qed.
+
+(** * Statements for Props/C03.v *)
+
+(** for every reported result the tool's replay is the independent replay: any
+    disabled set, any swaps, corrected register or not, log with or without its
+    own TPMInit; no hypothesis on the hash *)
+Theorem tool_replay_reported D (deqb : D -> D -> bool) :
+  (forall a b, deqb a b = true <-> a = b) ->
+  forall (pcr_init : Z -> D) (extend : D -> D -> D) (pcr0data : Z -> Z -> D) st alg
+         (cmds : list (lcmd D)) (target : D) cf r,
+  let f := PCR0Tool.filter_log D alg 0 cmds in
+  In (FSome r) (outcomes D deqb pcr_init extend pcr0data st (map snd f) target cf) ->
+  tool_verdict D deqb pcr_init extend pcr0data alg cmds target
+               (r_loc r) (r_reg r) (cmd_positions f (r_disabled r)) (r_swaps r)
+  = if deqb (replay_result D pcr_init extend pcr0data (map snd f) r) target then TVOk else TVMismatch.
+Proof.
+  intros Hd pcr_init extend pcr0data st alg cmds target cf r f Hin.
+  destruct (reported_wf D deqb Hd pcr_init extend pcr0data st (map snd f) target cf r Hin) as (H1 & H2 & H3).
+  rewrite map_length in H1, H2.
+  exact (tool_replay_agrees D deqb pcr_init extend pcr0data alg cmds target r H1 H2 H3).
+Qed.
+
+(** search and consumer together, collision-free hash: every reported result is
+    confirmed ("Resulting PCR0: <the requested value>") *)
+Theorem tool_confirms_reported D (deqb : D -> D -> bool) :
+  (forall a b, deqb a b = true <-> a = b) ->
+  forall (pcr_init : Z -> D) (extend : D -> D -> D) (pcr0data : Z -> Z -> D) st alg
+         (cmds : list (lcmd D)) (target : D) cf r,
+  let f := PCR0Tool.filter_log D alg 0 cmds in
+  extend_injective extend -> pcr0data_injective pcr0data -> lin_limit st <= 2 ^ 64 ->
+  In (FSome r) (outcomes D deqb pcr_init extend pcr0data st (map snd f) target cf) ->
+  tool_verdict D deqb pcr_init extend pcr0data alg cmds target
+               (r_loc r) (r_reg r) (cmd_positions f (r_disabled r)) (r_swaps r)
+  = TVOk.
+Proof.
+  intros Hd pcr_init extend pcr0data st alg cmds target cf r f He Hp HL Hin.
+  pose proof (tool_replay_reported D deqb Hd pcr_init extend pcr0data st alg cmds target cf r Hin) as E.
+  cbv zeta in E. fold f in E. rewrite E.
+  destruct (sound_cf D deqb Hd pcr_init extend pcr0data st (map snd f) target cf r He Hp HL Hin) as (Hr & _).
+  rewrite Hr. now rewrite (proj2 (Hd target target) eq_refl).
+Qed.
+
+(** * Closed instances: the witnesses of the two repaired findings, and the side condition *)
+
+Definition t_tool := tool_verdict term term_eqb Init Ext DataH.
 Definition t_log (alg : Z) (cmds : list cmd) : list tmeas := map snd (filter_log alg 0 cmds).
 Definition t_replay_result := replay_result term Init Ext DataH.
 
@@ -359,177 +571,77 @@ Definition st_w1 := mkSettings 4 0 false 2 128.
 Definition tgt_w1 : term := Ext (Ext (Init 3) (DataH 1 (R0 - 1))) (Atom 1).
 Definition r_w1 : result := mkResult 3 (Some (R0 - 1)) [] [].
 
-(** 2. a swap, in a log that starts with TPMInit(3): found at locality 3 the tool
-    swaps the wrong entries, found at locality 0 it swaps the right ones *)
+(** 2. a swap, in a log that starts with TPMInit(3), found at locality 3 and at 0 *)
 Definition cmds_w2 : list cmd :=
   [KInit 3; KExt 0 4 (MD 1 R0); KExt 0 4 (MP (Atom 1)); KExt 0 4 (MP (Atom 2))].
 Definition st_w2 := mkSettings 1 1 false 0 1.
 Definition tgt_w2 (loc : Z) : term := Ext (Ext (Ext (Init loc) (DataH 1 R0)) (Atom 2)) (Atom 1).
 Definition r_w2 (loc : Z) : result := mkResult loc (Some R0) [] [(1, 2)%nat].
 
-(** 3. a dropped measurement and a swap behind it: the reported indices count the
-    dropped entry, the tool's list does not hold it any more *)
+(** 3. a dropped measurement and a swap behind it *)
 Definition cmds_w3 : list cmd :=
   [KInit 3; KExt 0 4 (MD 1 R0); KExt 0 4 (MP (Atom 1)); KExt 0 4 (MP (Atom 2)); KExt 0 4 (MP (Atom 3))].
 Definition st_w3 := mkSettings 2 1 false 0 1.
 Definition tgt_w3 : term := Ext (Ext (Ext (Init 0) (DataH 1 R0)) (Atom 3)) (Atom 2).
 Definition r_w3 : result := mkResult 0 (Some R0) [1%nat] [(2, 3)%nat].
 
-(** 4. a swap with PCR0_DATA itself in a log that starts with TPMInit(3): the tool
-    moves the TPMInit entry behind an extend and prints no verdict at all *)
+(** 4. a swap with PCR0_DATA itself in a log that starts with TPMInit(3) *)
 Definition cmds_w4 : list cmd := [KInit 3; KExt 0 4 (MD 1 R0); KExt 0 4 (MP (Atom 1))].
 Definition tgt_w4 : term := Ext (Ext (Init 3) (Atom 1)) (DataH 1 R0).
 Definition r_w4 : result := mkResult 3 (Some R0) [] [(0, 1)%nat].
 
-Lemma tool_replay_witnesses :
-  (* 1 *)
+(** the results are the only outcome, replay to the requested value, and the
+    repaired tool confirms every one of them (before 00d338a / 84ad407 it answered
+    "internal error", "internal error", an index panic, nothing) *)
+Lemma tool_repaired_witnesses :
   (forall cf, In cf [1; 4] ->
      outcomes term term_eqb Init Ext DataH st_w1 (t_log 4 cmds_w1) tgt_w1 cf = [FSome r_w1]) /\
   t_replay_result (t_log 4 cmds_w1) r_w1 = tgt_w1 /\
-  t_tool 4 cmds_w1 tgt_w1 3 [] [] = TVMismatch /\
-  (* 2 *)
+  t_tool 4 cmds_w1 tgt_w1 3 (Some (R0 - 1)) [] [] = TVOk /\
   (forall loc, In loc [0; 3] ->
      outcomes term term_eqb Init Ext DataH st_w2 (t_log 4 cmds_w2) (tgt_w2 loc) 1 = [FSome (r_w2 loc)] /\
-     t_replay_result (t_log 4 cmds_w2) (r_w2 loc) = tgt_w2 loc) /\
-  t_tool 4 cmds_w2 (tgt_w2 3) 3 [] [(1, 2)%nat] = TVMismatch /\
-  t_tool 4 cmds_w2 (tgt_w2 0) 0 [] [(1, 2)%nat] = TVOk /\
-  (* 3 *)
+     t_replay_result (t_log 4 cmds_w2) (r_w2 loc) = tgt_w2 loc /\
+     t_tool 4 cmds_w2 (tgt_w2 loc) loc (Some R0) [] [(1, 2)%nat] = TVOk) /\
   outcomes term term_eqb Init Ext DataH st_w3 (t_log 4 cmds_w3) tgt_w3 1 = [FSome r_w3] /\
   t_replay_result (t_log 4 cmds_w3) r_w3 = tgt_w3 /\
-  t_tool 4 cmds_w3 tgt_w3 0 [2%nat] [(2, 3)%nat] = TVPanic /\
-  (* 4 *)
+  t_tool 4 cmds_w3 tgt_w3 0 (Some R0) [2%nat] [(2, 3)%nat] = TVOk /\
   outcomes term term_eqb Init Ext DataH st_w2 (t_log 4 cmds_w4) tgt_w4 1 = [FSome r_w4] /\
   t_replay_result (t_log 4 cmds_w4) r_w4 = tgt_w4 /\
-  t_tool 4 cmds_w4 tgt_w4 3 [] [(0, 1)%nat] = TVSilent.
+  t_tool 4 cmds_w4 tgt_w4 3 (Some R0) [] [(0, 1)%nat] = TVOk.
 Proof.
   split; [intros cf [<-|[<-|[]]]; vm_compute; reflexivity|].
   split; [vm_compute; reflexivity|]. split; [vm_compute; reflexivity|].
-  split; [intros loc [<-|[<-|[]]]; split; vm_compute; reflexivity|].
+  split; [intros loc [<-|[<-|[]]]; (split; [|split]); vm_compute; reflexivity|].
   repeat (split; [vm_compute; reflexivity|]). vm_compute; reflexivity.
 Qed.
 
-
-(** * Statements for Props/C03.v *)
-
-(** positions in the command log of the measurements a result lists as disabled
-    (the result itself holds pointers into the log) *)
-Definition cmd_positions {D} (f : list (nat * meas D)) (dis_f : list nat) : list nat :=
-  map (fun i => nth i (map fst f) O) dis_f.
-
-(** the reported register does not change the digest sequence: none is reported,
-    or the recorded PCR0_DATA digest already is the hash with that register *)
-Definition reg_neutral D (pcr0data : Z -> Z -> D) (log : list (meas D)) (r : result) : Prop :=
-  apply_result D pcr0data log r
-  = apply_result D pcr0data log (mkResult (r_loc r) None (r_disabled r) (r_swaps r)).
-
-Lemma reg_neutral_none D pcr0data log r : r_reg r = None -> reg_neutral D pcr0data log r.
-Proof. intro H. unfold reg_neutral, apply_result. cbn [r_reg r_disabled r_swaps]. now rewrite H. Qed.
-
-Lemma reg_neutral_same D (pcr0data : Z -> Z -> D) (log : list (meas D)) r v :
-  r_reg r = Some v ->
-  (forall p m tail reg0,
-     first_true (map (fun i => negb (mem_nat i (r_disabled r))) (seq 0 (length log))) 0 = Some p ->
-     nth_error log p = Some m -> m_data m = Some (tail, reg0) -> pcr0data tail v = m_dig m) ->
-  reg_neutral D pcr0data log r.
-Proof.
-  intros Hv H. unfold reg_neutral, apply_result, nlog. cbn [r_reg r_disabled r_swaps]. rewrite Hv.
-  destruct (first_true _ 0) as [p|] eqn:Ep; [|reflexivity].
-  destruct (nth_error log p) as [m|] eqn:Em; [|reflexivity].
-  destruct (m_data m) as [[tail reg0]|] eqn:Ed; [|reflexivity].
-  rewrite (H p m tail reg0 eq_refl Em Ed).
-  rewrite set_nth_same; [reflexivity|]. now apply map_nth_error.
-Qed.
-
-Theorem tool_agrees_no_swaps D (deqb : D -> D -> bool) (pcr_init : Z -> D) (extend : D -> D -> D)
-    (pcr0data : Z -> Z -> D) alg (cmds : list (lcmd D)) target r :
-  let f := PCR0Tool.filter_log D alg 0 cmds in
-  Forall (fun i => (i < length f)%nat) (r_disabled r) ->
-  r_swaps r = [] -> reg_neutral D pcr0data (map snd f) r ->
-  tool_verdict D deqb pcr_init extend alg cmds target (r_loc r) (cmd_positions f (r_disabled r)) (r_swaps r)
-  = if deqb (replay_result D pcr_init extend pcr0data (map snd f) r) target then TVOk else TVMismatch.
-Proof.
-  intros f HF Hs Hn. rewrite Hs. unfold cmd_positions.
-  pose proof (tool_plain_model D deqb pcr_init extend pcr0data alg cmds target (r_loc r) (r_disabled r) HF) as E.
-  cbv zeta in E. fold f in E. rewrite E. unfold replay_result. rewrite Hn, Hs. reflexivity.
-Qed.
-
-Theorem tool_agrees_swaps_only D (deqb : D -> D -> bool) (pcr_init : Z -> D) (extend : D -> D -> D)
-    (pcr0data : Z -> Z -> D) alg (cmds : list (lcmd D)) target r :
-  let f := PCR0Tool.filter_log D alg 0 cmds in
-  r_disabled r = [] -> no_init_kept D (r_loc r) cmds ->
-  Forall (fun i => (i < length f)%nat) (swap_idx (r_swaps r)) ->
-  reg_neutral D pcr0data (map snd f) r ->
-  tool_verdict D deqb pcr_init extend alg cmds target (r_loc r) (cmd_positions f (r_disabled r)) (r_swaps r)
-  = if deqb (replay_result D pcr_init extend pcr0data (map snd f) r) target then TVOk else TVMismatch.
-Proof.
-  intros f Hd Hi Hs Hn. rewrite Hd. unfold cmd_positions. cbn [map].
-  pose proof (tool_swaps_model D deqb pcr_init extend pcr0data alg cmds target (r_loc r) (r_swaps r) Hi Hs) as E.
-  cbv zeta in E. fold f in E. rewrite E. unfold replay_result. rewrite Hn, Hd. reflexivity.
-Qed.
-
-(** with the specification of [deqb]: the tool prints "Resulting PCR0" exactly for
-    the results that replay to the requested value *)
-Corollary tool_ok_iff D (deqb : D -> D -> bool) (x target : D) :
-  (forall a b, deqb a b = true <-> a = b) ->
-  ((if deqb x target then TVOk else TVMismatch) = TVOk <-> x = target).
-Proof.
-  intro Hd. destruct (deqb x target) eqn:E.
-  - apply Hd in E. tauto.
-  - split; [discriminate|]. intro H. apply Hd in H. congruence.
-Qed.
-
-(** the premises of the two agreement theorems are met by non-trivial results *)
-Definition r_ex1 : result := mkResult 3 (Some R0) [2%nat] [].
-Definition tgt_ex1 : term := Ext (Ext (Ext (Init 3) (DataH 1 R0)) (Atom 1)) (Atom 3).
+(** the side conditions of [tool_replay_agrees] on a concrete non-trivial result
+    (dropped measurement, swap, corrected register, log with its own TPMInit), and
+    what happens without [data_first]: a register reported for a log whose first
+    enabled measurement is not PCR0_DATA (never reported by the search) -- the tool
+    cannot apply it and prints no verdict, [apply_result] ignores it *)
+Definition r_ex1 : result := mkResult 3 (Some (R0 - 1)) [2%nat] [(1, 3)%nat].
+Definition tgt_ex1 : term := Ext (Ext (Ext (Init 3) (DataH 1 (R0 - 1))) (Atom 3)) (Atom 1).
+Definition r_nd : result := mkResult 0 (Some R0) [0%nat] [].
+Definition tgt_nd : term := Ext (Init 0) (Atom 1).
 
 Lemma tool_agreement_examples :
-  (* a dropped measurement, no swaps, log starting with TPMInit(3), found at locality 3 *)
   (let f := filter_log 4 0 cmds_w3 in
-   Forall (fun i => (i < length f)%nat) (r_disabled r_ex1) /\ r_swaps r_ex1 = [] /\
-   reg_neutral term DataH (map snd f) r_ex1 /\ cmd_positions f (r_disabled r_ex1) = [3%nat] /\
+   Forall (fun i => (i < length f)%nat) (r_disabled r_ex1) /\
+   Forall (fun i => (i < length f)%nat) (swap_idx (r_swaps r_ex1)) /\
+   data_first term (map snd f) r_ex1 /\ cmd_positions f (r_disabled r_ex1) = [3%nat] /\
    t_replay_result (map snd f) r_ex1 = tgt_ex1 /\
-   t_tool 4 cmds_w3 tgt_ex1 3 [3%nat] [] = TVOk) /\
-  (* a swap, log starting with TPMInit(3), found at locality 0 *)
-  (let f := filter_log 4 0 cmds_w2 in
-   r_disabled (r_w2 0) = [] /\ no_init_kept term (r_loc (r_w2 0)) cmds_w2 /\
-   Forall (fun i => (i < length f)%nat) (swap_idx (r_swaps (r_w2 0))) /\
-   reg_neutral term DataH (map snd f) (r_w2 0)).
+   t_tool 4 cmds_w3 tgt_ex1 3 (Some (R0 - 1)) [3%nat] [(1, 3)%nat] = TVOk) /\
+  (let f := filter_log 4 0 cmds_w1 in
+   ~ data_first term (map snd f) r_nd /\
+   t_replay_result (map snd f) r_nd = tgt_nd /\
+   t_tool 4 cmds_w1 tgt_nd 0 (Some R0) (cmd_positions f (r_disabled r_nd)) [] = TVSilent).
 Proof.
   split; cbv zeta.
-  - split; [repeat constructor|]. split; [reflexivity|]. split; [vm_compute; reflexivity|].
+  - split; [repeat constructor|]. split; [vm_compute; repeat constructor|]. split.
+    { intros v p m _ Ef Hn. vm_compute in Ef. inversion Ef; subst p. vm_compute in Hn. inversion Hn. discriminate. }
     split; [reflexivity|]. split; vm_compute; reflexivity.
-  - split; [reflexivity|]. split; [cbn; lia|]. split; [vm_compute; repeat constructor|].
-    vm_compute; reflexivity.
-Qed.
-
-
-Lemma disabled_of_range D (log : list (meas D)) comb :
-  Forall (fun i => (i < length log)%nat) (disabled_of D log comb).
-Proof.
-  unfold disabled_of, nlog. apply Forall_forall. intros i Hi.
-  apply in_map_iff in Hi as (z & <- & Hz). apply filter_In in Hz as (_ & Hz). lia.
-Qed.
-
-(** search and consumer together: a reported result without swaps whose register
-    leaves the PCR0_DATA digest as recorded is accepted by pcr0tool's replay *)
-Theorem tool_accepts_plain D (deqb : D -> D -> bool) :
-  (forall a b, deqb a b = true <-> a = b) ->
-  forall (pcr_init : Z -> D) (extend : D -> D -> D) (pcr0data : Z -> Z -> D) st alg
-         (cmds : list (lcmd D)) (target : D) cf r,
-  let f := PCR0Tool.filter_log D alg 0 cmds in
-  extend_injective extend -> pcr0data_injective pcr0data -> lin_limit st <= 2 ^ 64 ->
-  1 <= cf -> no_overflow D st (map snd f) ->
-  In (FSome r) (outcomes D deqb pcr_init extend pcr0data st (map snd f) target cf) ->
-  r_swaps r = [] -> reg_neutral D pcr0data (map snd f) r ->
-  tool_verdict D deqb pcr_init extend alg cmds target (r_loc r) (cmd_positions f (r_disabled r)) (r_swaps r)
-  = TVOk.
-Proof.
-  intros Hd pcr_init extend pcr0data st alg cmds target cf r f He Hp HL Hcf Hno Hin Hs Hn.
-  destruct (sound_cf D deqb Hd pcr_init extend pcr0data st (map snd f) target cf r He Hp HL Hin) as (Hr & _).
-  destruct (found_in_space D deqb Hd pcr_init extend pcr0data st (map snd f) target cf r Hcf Hno Hin)
-    as (c & reg & s' & _ & _ & _ & Hdis & _).
-  pose proof (tool_agrees_no_swaps D deqb pcr_init extend pcr0data alg cmds target r) as E.
-  cbv zeta in E. fold f in E. rewrite E; try assumption.
-  - rewrite Hr. now rewrite (proj2 (Hd target target) eq_refl).
-  - rewrite Hdis. pose proof (disabled_of_range D (map snd f) c) as R. now rewrite map_length in R.
+  - split.
+    { intro H. apply (H R0 1%nat (MP (Atom 1)) eq_refl); reflexivity. }
+    split; vm_compute; reflexivity.
 Qed.
